@@ -17,6 +17,10 @@ let zs t = let n = int t in times n (fun () -> rdz t)
 let read_op (t : toks) : op =
   match word t with
   | "fn" -> let k = int t in OFromNested (times k (fun () -> zs t))
+  | "fa" ->
+    let h = int t in let w = int t in
+    let ents = Array.of_list (times (h * w) (fun () -> rdz t)) in
+    OFromArray (nat_of_int h, nat_of_int w, (fun r c -> ents.(int_of_nat r * w + int_of_nat c)))
   | "ff" -> let data = zs t in let d = rdz t in let h = rdn t in let w = rdn t in OFromFlat (data, d, h, w)
   | "fu" -> let v = rdz t in let h = rdn t in let w = rdn t in OFull (v, h, w)
   | "id" -> OIdentity (rdn t)
